@@ -151,8 +151,8 @@ PROPERTIES = {
         assumptions=[CONC],
     ),
     'C09': dict(
-        units=['active_peers', 'enum_cm'],
-        canaries=['active_peers', 'dialing'],
+        units=['active_peers', 'tls_config', 'enum_cm'],
+        canaries=['active_peers', 'dialing', 'tls_config'],
         extra=[validate.history_c09, validate.panicking_handler, validate.silent_peer_loss],
         scope='ONE sentence of three: an explicit disconnect removes the peer locally at once (one critical section), closes that connection and appends exactly '
               'LostPeer(peer, Requested); afterwards peer(p) is None and rpc(p, _) fails until a new connection is registered; every way a connection can end is mapped '
